@@ -46,8 +46,9 @@ def run(ctx):
     # (G) the same universe, rendered by TLC
     gl = ctx.pick(2, 3)
     rlen, rn = ctx.pick(("{4, 6, 9}", 400), ("{4, 5, 6, 8, 10, 12}", 20000))
-    data, _ = ctx.generate("Gen_C14", cfg_text="INIT GenInit\nNEXT GenNext\n" + _cfg(gl, 40, "RLen = %s\n RN = %d\n" % (rlen, rn)))
-    strings = sorted(set(tuple(x) for x in data["all"]) | set(tuple(x) for x in data["rnd"]))
+    data, _ = ctx.generate("Gen_C14", cfg_text="INIT GenInit\nNEXT GenNext\n" + _cfg(gl, 40, "RLen = %s\n RN = %d\n FocusIdx = {1, 2, 3, 14, 17, 18, 27, 29, 35, 36}\n FLen = %d\n" % (rlen, rn, ctx.pick(4, 5))))
+    strings = sorted(set(tuple(x) for x in data["all"]) | set(tuple(x) for x in data["rnd"]) | set(tuple(x) for x in data["focus"]))
+    ctx.extra["inputs_focus"] = len(data["focus"])
     ctx.extra["inputs_exhaustive"] = len(data["all"])
     ctx.extra["inputs_random"] = len(data["rnd"])
     cases = [{"f": f, "s": list(s)} for s in strings for f in FUNS]
@@ -56,7 +57,7 @@ def run(ctx):
     ctx.traces_validated = len(cases)
     ctx.exhaustive = True
     ctx.rule = ("inputs: every token sequence of length <= %d over the 40-token alphabet of C14.tla (rendered by TLC), plus "
-                "TLC RandomSubset sequences of lengths %s; each through the 4 safely_unquote_* kinds, safely_quote and "
+                "TLC RandomSubset sequences of lengths %s, and every sequence of length <= 4 (thorough 5) over the 10 tokens that can glue into escapes; each through the 4 safely_unquote_* kinds, safely_quote and "
                 "upper_quoted, each applied twice; non-trivial = output differs from input" % (gl, rlen))
     ctx.assumptions = ["percent-decoding and UTF-8 as defined in spec/Pct.tla, spec/Text.tla",
                        "component delimiter sets: Delims(K) in spec/Pct.tla"]
